@@ -16,7 +16,7 @@ PROP = dict(
                    floors={"mpt_linepart_linear": 1000000, "mpt_linepart_join": 500000, "join:accepted": 100000, "join:refused": 100000,
                            "monitor:cut-fraction": 200000, "monitor:trim-fraction": 200000, "monitor:coverage-points": 1000000,
                            "monitor:crossings-complete": 200000, "state:part-at-limit-65535": 1000, "run:cases": 1000,
-                           "exhaustive:instances": 5 * 97655, "data:non-finite": 500}),
+                           "exhaustive:instances": 5 * 97655, "data:non-finite": 500, "monitor:underflow-witnesses": 96}),
               dict(name="c18_cxx", memcheck=500, src=["c18_cxx.cpp", "c18_oracle.c"], libs=["mpt++", "mptio", "mptplot", "mptcore"], batch=512,
                    cflags=["-fno-sanitize=vptr"],
                    floors={"linepart::array::apply": 50000, "linepart::array::set": 10000, "transform::part": 100000,
@@ -25,7 +25,9 @@ PROP = dict(
                            "exhaustive:nd-instances": 400000, "monitor:nd-lists": 900000, "monitor:nd-cut-fraction": 300000,
                            "monitor:nd-trim-fraction": 300000, "monitor:nd-cut-zero": 300000, "monitor:nd-coverage-points": 500000,
                            "monitor:polyline2-lists": 40000, "monitor:polyline2-drawn-points": 150000, "polyline::part::points": 80000,
-                           "state:two-point-part-cut-and-trim": 5000, "state:empty-part-with-cut-or-trim": 1000}),
+                           "state:two-point-part-cut-and-trim": 5000, "state:empty-part-with-cut-or-trim": 1000,
+                           "monitor:norange-runs": 300, "transform::part (no range)": 600, "monitor:history-steps": 40000,
+                           "cycle::stage::transform": 30000, "polyline::clear": 8000}),
               ],
         rule=("case = (a) one class sequence (exhaustive by index) instantiated in 5 scalings, or (b) one PRNG sequence of 1..300 reals "
               "with a PRNG range, or (c) one data set with a run of 65533..65538 points of one kind plus head/tail classes, or several runs "
